@@ -50,6 +50,9 @@ def make_case(rng, i, tier):
             op["t"] = rng.randrange(0, 90)
         hist.append(op)
     caps = [rng.choice([24, 48, 96, 30]) for _ in range(rng.randint(1, 3))]
+    if route == "split" and (i // len(ROUTES)) % 2 == 0 and len(pc["bars"]) >= 2:
+        # capacities equal to the bar lengths: the signature / key events of the piece sit exactly on the inner boundaries
+        caps = [b[1] for b in pc["bars"]][:rng.randint(2, 3)]
     return {"route": route, "side": side, "piece": pc, "history": hist, "caps": caps}
 
 
